@@ -52,6 +52,46 @@ Theorem C13_ok_reply_is_not_404 :
 Proof. exact ok_reply_is_not_404. Qed.
 Print Assumptions C13_ok_reply_is_not_404.
 
+(* ... and seen from the client peer, on the wire: when the reply is not the 404 packet it reads back
+   (head up to the first empty line, cut into lines; rest = body) as status line "HTTP/1.1 200 OK",
+   a Content-Length equal to the body length, and a body that -- gunzipped exactly when a header
+   line "Content-Encoding: gzip" is present -- is the file's content, byte for byte.
+   (mimetypes is assumed not to return a type containing a carriage return.) *)
+Theorem C13_served_reads_back :
+  forall dir mcl agent fs guess_type gz gunz,
+    (forall x, gunz (gz x) = x) ->
+    startswith dir [SLASH] = true ->
+    (forall p t, guess_type p = Some t -> mem_byte CR t = false) ->
+    forall path reply,
+      try_static_or_404 dir mcl agent fs guess_type gz path = Ok reply ->
+      reply <> NOT_FOUND_RESPONSE_PKT agent ->
+      exists content hdrs body,
+        inside dir (dir ++ before_q path)
+        /\ fs (dir ++ before_q path) = Some content
+        /\ read_reply reply = Some (bs "HTTP/1.1 200 OK" :: hdrs, body)
+        /\ client_body gunz hdrs body = content
+        /\ find_header (bs "Content-Length") hdrs = Some (dec_of_N (len body)).
+Proof. exact served_reads_back. Qed.
+Print Assumptions C13_served_reads_back.
+
+(* the same through on_request_complete (no route matched, static server enabled), whose only
+   addition is  path = self.request.path or b'/' *)
+Theorem C13_request_confined :
+  forall dir mcl agent fs guess_type gz gunz,
+    (forall x, gunz (gz x) = x) ->
+    startswith dir [SLASH] = true ->
+    forall request_path reply,
+      on_request_complete_static dir mcl agent fs guess_type gz request_path = Ok reply ->
+      reply = NOT_FOUND_RESPONSE_PKT agent
+      \/ exists p content headers body,
+           p = before_q (if nonempty request_path then body_or_empty request_path else [SLASH])
+           /\ inside dir (dir ++ p)
+           /\ fs (dir ++ p) = Some content
+           /\ reply = build_http_response 200 (Some (bs "OK")) headers (Some body) true false
+           /\ undo_encoding gunz headers body = content.
+Proof. exact request_confined. Qed.
+Print Assumptions C13_request_confined.
+
 (* With a symlink-free file system behind open(): whatever is served is the content of a file that
    sits at or below the static directory in the tree. *)
 Theorem C13_served_from_subtree :
